@@ -1,6 +1,9 @@
 """C05 — segment names stay unique; name-addressed edits touch only their target."""
 from core import enc, q, user_fn_spec
-from gen import NAME_POOL, USER_ARITY, canonical_names, basename
+from gen import NAME_POOL as _NAME_POOL, USER_ARITY, canonical_names, basename
+
+# base names of which one is a proper prefix of another (ramp / rampup, a / ab / a1b): name matching is by base name, not by prefix
+NAME_POOL = _NAME_POOL + ["rampup", "ab"]
 
 ID = "C05"
 HEAP_SUMMARY = True      # end every program with the reference-level observation (BB.Model.Heap vs id() walk)
